@@ -73,6 +73,15 @@ check("C14", "property test with an abstract interpreter of the target interpret
       "The validator reports nothing on 200 stdlib modules compiled by each CPython 3.7-3.11. Stack analysis is skipped for generator code and, before 3.9, for code with try/finally/with set-up instructions.",
       "DESIGN.md §3 C14")
 
+check("C02", "property test with a validity predicate on the run of generated, checker-accepted programs",
+      "Fragment programs with operands biased to negative and mixed-sign values are compiled and run; the uncaught exception must not be TypeError, AttributeError, NameError or UnboundLocalError, nor a value-constraint error raised by a `raise` statement inside Erg's runtime classes (lib/core/_erg_*.py); ZeroDivisionError, IndexError, AssertionError and exit are allowed. Type errors are confirmed in a fresh process.",
+      "Same fragment and exclusions as C01; pinned explicit replays keep the known Nat-wrapping findings (Int ** Nat, union-typed left operand) visible.",
+      "DESIGN.md §3 C02")
+check("C17", "differential property test: transpiled Python script vs compiled bytecode of the same generated program",
+      "Programs of a sub-fragment the transpiler handles (bindings, arithmetic, comparisons, strings with quotes/backslashes/braces/newlines/NUL/non-ASCII, lists, list loops, while loops, functions, lambdas, pattern definitions, assert, exit) are transpiled in-process; the script must compile under CPython 3.11 and give the same stdout bytes, exception type and exit status as the bytecode (confirmed in fresh processes).",
+      "Range loops, default/keyword parameters and if! statements are left out because of recorded known findings (pinned replays); interpolation and if expressions are left out as well and are NOT analysed by this check; a transpiler panic ('not implemented') or diagnostics count as declined.",
+      "DESIGN.md §3 C17")
+
 NOT_APPLICABLE = {}
 
 def main():
